@@ -105,6 +105,9 @@ def trace(expr, defs, extra_pass_calls=(), depth=0, seen=None):
         if n.get("name") in ("format", "format_args", "concat", "write"):
             for s in C.macro_strings(n):
                 out.add(("lit", s))
+            cf = C.macro_fmt_canon(n)
+            if cf is not None:
+                out.add(("fmt", cf))
             for nm, lid in C.free_locals(n["inner"]):
                 d = defs.get(lid)
                 if d:
